@@ -56,6 +56,14 @@ Theorem C09_radia_nonneg_true_functions : forall (x : rd_in (T:=R)) (trrel vswel
   0 <= maint <= gphot /\ (forall aspoo, 0 <= aspoo -> 0 <= gphot + aspoo).
 Proof. exact radia_nonneg_true. Qed.
 
+(* maintenance (crop.go:955-964): the organs' shares MANT of the maintenance respiration are >= 0 and sum to exactly 1 whenever the
+   maintenance sum is positive (organ masses and maintenance rates >= 0) - so the maintenance terms MAINT*MANT[i]*0.7 that the organ
+   fragment of Prop_C09 subtracts add up to 0.7*MAINT, no more *)
+Theorem C09_maintenance_shares : forall worg mairt : list R,
+  Forall (fun p => 0 <= fst p * snd p) (combine worg mairt) -> 0 < maint_sum worg mairt ->
+  Forall (fun m => 0 <= m <= 1) (mant_of worg mairt) /\ Rsum (mant_of worg mairt) = 1.
+Proof. exact mant_shares. Qed.
+
 (* non-vacuity: a May day of a C3 crop under CO2 method 2 meets every hypothesis of the oracle form *)
 Example C09d_nonvacuous :
   let x := radia_example in
@@ -67,3 +75,4 @@ Print Assumptions C09_amax_floor_and_efficiency.
 Print Assumptions C09_light_response_nonneg.
 Print Assumptions C09_light_response_true_functions.
 Print Assumptions C09_radia_nonneg_true_functions.
+Print Assumptions C09_maintenance_shares.
